@@ -333,7 +333,20 @@ UnsortedShapes(long) ==
   IN <<mk("0base", SortMsgs, "base", "Root"), mk("0base", SortMsgs, "base", "Other")>>
      \o FlattenSeq([i \in DOMAIN ps |-> <<mk("1v" \o ToString(i), ps[i], "variant", "Root"), mk("1v" \o ToString(i), ps[i], "variant", "Other")>>])
 
+\* the fields of an EMBEDDED message permuted (nullable embed with a scalar and a list child), sort off
+EmbInner(fs) == Msg("Inner", fs, <<>>)
+EmbFields == <<Fld("Fa", 1, "string"), Rep(Fld("Fb", 2, "string")), Fld("Fc", 3, "int32")>>
+EmbRoot == Msg("Root", <<Fld("Str", 1, "string"), Embed(MsgF("Inner", 2, "Inner"))>>, <<>>)
+EmbedOrderShapes ==
+  LET mk(id, fs, role) ==
+        [Shape("c15.e." \o id, Desc(<<EmbInner(fs), EmbRoot>>), BaseCfg) EXCEPT !.group = "c15.e",
+           !.gchecks = <<GCheck("schema", "C15", "C15.unsorted_schema")>>,
+           !.pair = [key |-> "c15.e", role |-> role, clause |-> "C15.unsorted_behaviour", prop |-> "C15", exclkey |-> ""]]
+  IN <<mk("0base", EmbFields, "base"), mk("1rev", Reverse(EmbFields), "variant"),
+       mk("2rot", <<EmbFields[2], EmbFields[3], EmbFields[1]>>, "variant")>>
+
 GenSortShapes(long) ==
+  EmbedOrderShapes \o
   <<[Shape("c15.sorted", Desc(SortMsgs), [SortCfg(TRUE) EXCEPT !.alts = SortAlts(long)]) EXCEPT !.root = "Root"]>> \o UnsortedShapes(long)
 
 ---------------------------------------------------------------------------
@@ -352,7 +365,9 @@ SepTriple(sp) ==
                                        !.gchecks = <<GCheck("schema", "C13", "C13.same_behaviour")>>]
   IN <<mk("0same", sp.cfg, "base"),
        mk("1sep", [sp.cfg EXCEPT !.separate = TRUE], "variant"),
-       mk("2sepovr", [sp.cfg EXCEPT !.separate = TRUE, !.importoverride = TRUE], "variant")>>
+       mk("2sepovr", [sp.cfg EXCEPT !.separate = TRUE, !.importoverride = TRUE], "variant"),
+       \* a versioned import path: the last element contains a dot (.../tp.v1)
+       mk("3sepdot", [sp.cfg EXCEPT !.separate = TRUE, !.dottedimport = TRUE], "variant")>>
 
 GenSepShapes == FlattenSeq([i \in DOMAIN SepSel |-> SepTriple(SepSel[i])])
 
